@@ -37,6 +37,7 @@ from genf import translate  # noqa: E402,F401  (regenerates lean/PyribsGen/Formu
 PROOF_MODULES = ["PyribsProofs.C19", "PyribsGen.Formulas", "PyribsProofs.GenFOpt", "PyribsProofs.GenFCtl"]
 THEOREMS = [
     "Pyribs.GenFProofs.gae_num_parents_matches",
+    "Pyribs.GenFProofs.gae_check_restart_matches",
     # update rules of the gradient optimizers, regenerated from the source (harness/translate/formulas.py)
     "Pyribs.GenFProofs.ascent_matches",
     "Pyribs.GenFProofs.adam_matches",
